@@ -265,6 +265,90 @@ theorem last_step_advantage (γ lam : α) (V : O → α) (f : A → A) (c : Carr
   rw [Lemmas.gaeCol_snoc_getLast]
   simp [slotOf]
 
+/-- **End to end: the advantages `collect_rollouts` leaves in the buffer are GAE of what happened.**
+For every environment `e`, rollout length `T = xs.length`, step `t`, `γ`, `λ`, episode script and policy / critic
+stream, the advantage computed from the collected buffer (C05's backward loop on the stored rewards, values,
+episode starts, with `last_values` / `dones`) is C05's closed form written on the *externals*:
+`Σ_{l < T-t} (γλ)^l · Π_{j<l} (1 − done_{t+j}) · δ_{t+l}` with
+`δ_k = r′_k + γ · V(observation returned by step k) · (1 − done_k) − V(observation the policy saw at step k)`,
+`r′_k` = environment reward `+ γ·V(terminal observation)` exactly on time-limit truncation (`tdAt`, `rewardOf`),
+`done_k` the previous-done flags that became the episode starts, and the last step bootstrapped with the
+value of its successor observation times `(1 − last done)`. -/
+theorem advantages_are_gae_of_collected_rollout (γ lam : α) (V : O → α) (f : A → A) (c : Carry O)
+    (xs : List (StepIn O A α)) (e t : ℕ) :
+    (advantagesOf γ lam (collectRollout γ V f c xs) e).getD t 0 =
+      ∑ l ∈ Finset.range (xs.length - t),
+        (γ * lam) ^ l * (∏ j ∈ Finset.range l, (1 - boolS (doneAt xs e (t + j)))) * tdAt γ V c xs e (t + l) :=
+  Lemmas.adv_closed γ lam V f c xs e t
+
+/-- … and the returns are those advantages plus the value of the observation the policy saw. -/
+theorem returns_are_advantage_plus_value (γ lam : α) (V : O → α) (f : A → A) (c : Carry O)
+    (xs : List (StepIn O A α)) (e t : ℕ) (p : Carry O) (ht : t < xs.length)
+    (hp : (c :: xs.map carryOf)[t]? = some p) :
+    (returnsOf γ lam (collectRollout γ V f c xs) e).getD t 0 =
+      (advantagesOf γ lam (collectRollout γ V f c xs) e).getD t 0 + V (p.lastObs e) := by
+  have hx : xs[t]? = some xs[t] := List.getElem?_eq_getElem ht
+  have hs : (gaeSteps (collectRollout γ V f c xs).rows e)[t]? = some (Lemmas.mkStep γ V e p xs[t]) := by
+    rw [Lemmas.gaeSteps_rows, List.getElem?_zipWith, hp, hx]
+  have hlen : t < (advantagesOf γ lam (collectRollout γ V f c xs) e).length := by
+    unfold advantagesOf
+    rw [SB3Verif.Lemmas.gaeCol_length, Lemmas.steps_length]; exact ht
+  have ha : (advantagesOf γ lam (collectRollout γ V f c xs) e)[t]? =
+      some ((advantagesOf γ lam (collectRollout γ V f c xs) e)[t]) := List.getElem?_eq_getElem hlen
+  simp only [returnsOf, SB3Verif.Rollout.returnsCol, List.getD_eq_getElem?_getD, List.getElem?_zipWith, ha, hs]
+  simp [Lemmas.mkStep]
+
+/-- **Inside one episode** (`s ≤ t`, no episode end in `[s, t)`, episode ends at step `t`): the sum runs through
+the end of the episode with full weights and stops there — nothing of the next episode leaks in. -/
+theorem advantage_within_episode (γ lam : α) (V : O → α) (f : A → A) (c : Carry O) (xs : List (StepIn O A α))
+    (e s t : ℕ) (hst : s ≤ t) (ht : t < xs.length) (hrun : ∀ j, s ≤ j → j < t → doneAt xs e j = false)
+    (hend : doneAt xs e t = true) :
+    (advantagesOf γ lam (collectRollout γ V f c xs) e).getD s 0 =
+      ∑ l ∈ Finset.range (t - s + 1), (γ * lam) ^ l * tdAt γ V c xs e (s + l) :=
+  Lemmas.adv_segment γ lam V f c xs e s t hst ht hrun hend
+
+/-- TD residual of a step cut by the time limit (not terminated): `r + γ·V(terminal observation) − V(obs)`;
+the first observation of the next episode does not enter. -/
+theorem td_residual_truncated (γ : α) (V : O → α) (c : Carry O) (xs : List (StepIn O A α)) (e t : ℕ)
+    (p : Carry O) (x : StepIn O A α) (r : Raw O α)
+    (hp : (c :: xs.map carryOf)[t]? = some p) (hx : xs[t]? = some x) (hr : x.out e = vecOut r)
+    (h₁ : r.truncated = true) (h₂ : r.terminated = false) :
+    tdAt γ V c xs e t = r.reward + γ * V r.obs - V (p.lastObs e) := by
+  simp only [tdAt, hp, hx, hr, (reward_truncated γ V r h₁ h₂).1]
+  simp [vecOut, h₁, h₂, boolS]
+
+/-- TD residual of a terminated step (truncated at the same time or not): `r − V(obs)`, no bootstrap at all. -/
+theorem td_residual_terminated (γ : α) (V : O → α) (c : Carry O) (xs : List (StepIn O A α)) (e t : ℕ)
+    (p : Carry O) (x : StepIn O A α) (r : Raw O α)
+    (hp : (c :: xs.map carryOf)[t]? = some p) (hx : xs[t]? = some x) (hr : x.out e = vecOut r)
+    (h : r.terminated = true) :
+    tdAt γ V c xs e t = r.reward - V (p.lastObs e) := by
+  simp only [tdAt, hp, hx, hr, reward_terminated γ V r h]
+  simp [vecOut, h, boolS]
+
+/-- **A truncation is bootstrapped, not cut.** If the episode of environment `e` is truncated (not terminated)
+at step `t`, the advantage of step `t` is `r_t + γ·V(terminal observation) − V(obs_t)`, and for every earlier step
+`s` of the same episode the GAE sum continues through that bootstrapped residual with weight `(γλ)^{t-s}` (and
+ends there). -/
+theorem truncation_is_bootstrapped_not_cut (γ lam : α) (V : O → α) (f : A → A) (c : Carry O)
+    (xs : List (StepIn O A α)) (e s t : ℕ) (p : Carry O) (x : StepIn O A α) (r : Raw O α)
+    (hp : (c :: xs.map carryOf)[t]? = some p) (hx : xs[t]? = some x) (hr : x.out e = vecOut r)
+    (h₁ : r.truncated = true) (h₂ : r.terminated = false)
+    (hst : s ≤ t) (hrun : ∀ j, s ≤ j → j < t → doneAt xs e j = false) :
+    (advantagesOf γ lam (collectRollout γ V f c xs) e).getD t 0 = r.reward + γ * V r.obs - V (p.lastObs e) ∧
+    (advantagesOf γ lam (collectRollout γ V f c xs) e).getD s 0 =
+      (∑ l ∈ Finset.range (t - s), (γ * lam) ^ l * tdAt γ V c xs e (s + l)) +
+        (γ * lam) ^ (t - s) * (r.reward + γ * V r.obs - V (p.lastObs e)) := by
+  have ht : t < xs.length := (List.getElem?_eq_some_iff.mp hx).1
+  have hend : doneAt xs e t = true := by simp [doneAt, hx, hr, vecOut, h₁]
+  have htd := td_residual_truncated γ V c xs e t p x r hp hx hr h₁ h₂
+  constructor
+  · rw [Lemmas.adv_segment γ lam V f c xs e t t (le_refl t) ht (fun j h1 h2 => absurd h1 (by omega)) hend]
+    simp [htd]
+  · rw [Lemmas.adv_segment γ lam V f c xs e s t hst ht hrun hend, Finset.sum_range_succ]
+    have : s + (t - s) = t := by omega
+    rw [this, htd]
+
 end gae
 
 /-! ### Action sent to the environment (any linearly ordered field) -/
@@ -369,6 +453,38 @@ example : List.Forall₂ (fun (x y : StepIn ℕ ℤ ℤ) => x.sample 0 = y.sampl
 
 example : noReset ([.rollout exV [exStep0], .learn false (fun _ => 0), .rollout exV [exStep1]] : List (Op ℕ ℤ ℤ)) = true := by
   decide
+
+/-! a 3-step, 2-environment rollout: env 0 is truncated at step 0, runs on, and is truncated again exactly on
+the rollout boundary (step 2); env 1 runs, terminates at step 1, and is still running at the end -/
+
+def exA : StepIn ℕ ℤ ℤ :=
+  { sample := fun e => ⟨5 + e, -1⟩, out := fun e => if e = 0 then exOut 11 3 false true 20 else exOut 111 4 false false 0 }
+def exB : StepIn ℕ ℤ ℤ :=
+  { sample := fun e => ⟨7 + e, -2⟩, out := fun e => if e = 0 then exOut 21 1 false false 0 else exOut 112 2 true false 120 }
+def exC : StepIn ℕ ℤ ℤ :=
+  { sample := fun e => ⟨9 + e, -3⟩, out := fun e => if e = 0 then exOut 22 5 false true 30 else exOut 121 1 false false 0 }
+
+/-- env 0 (γ = 3, λ = 1): step 0 = 3 + 3·V(11) − V(10) = 49 (bootstrapped, then cut); step 2 = 5 + 3·V(22) − V(21) = 95
+(boundary truncation); step 1 = (1 + 3·V(21) − V(20)) + 3·95 = 372 continues through the bootstrapped residual -/
+example : advantagesOf (3 : ℤ) 1 (collectRollout (3 : ℤ) exV id exCarry [exA, exB, exC]) 0 = [49, 372, 95] := by decide
+
+/-- env 1: termination at step 1 is cut without bootstrap (2 − V(111) = −220); the unfinished last step is
+bootstrapped with the successor: 1 + 3·V(121) − V(120) = 487 -/
+example : advantagesOf (3 : ℤ) 1 (collectRollout (3 : ℤ) exV id exCarry [exA, exB, exC]) 1 = [-210, -220, 487] := by
+  decide
+
+example : returnsOf (3 : ℤ) 1 (collectRollout (3 : ℤ) exV id exCarry [exA, exB, exC]) 0 = [69, 412, 137] := by decide
+
+/-- the hypotheses of `truncation_is_bootstrapped_not_cut` at `s = 1`, `t = 2`, `e = 0` -/
+example : doneAt [exA, exB, exC] 0 1 = false ∧ doneAt [exA, exB, exC] 0 2 = true ∧
+    exC.out 0 = vecOut (⟨22, 5, false, true, 30⟩ : Raw ℕ ℤ) ∧
+    (exCarry :: [exA, exB, exC].map carryOf)[2]?.isSome ∧ [exA, exB, exC][2]?.isSome := by
+  refine ⟨by decide, by decide, rfl, by decide, by decide⟩
+
+/-- the hypotheses of `td_residual_terminated` at `t = 1`, `e = 1` -/
+example : exB.out 1 = vecOut (⟨112, 2, true, false, 120⟩ : Raw ℕ ℤ) ∧
+    (List.range 3).map (tdAt (3 : ℤ) exV exCarry [exA, exB, exC] 1) = [450, -220, 487] := by
+  refine ⟨rfl, by decide⟩
 
 example : (2 : ℚ)⁻¹ * 2 = 1 ∧ ((-2 : ℚ) ≤ 6) := by norm_num
 
